@@ -153,22 +153,25 @@ def runLocal (prog : List WI) : Nat → St × Nat → St × Nat
       | none => (s, pc)
       | some x => runLocal prog fuel x
 
-def selectAlt (s : St) : Comm × Nat → List (St × Nat)
+/-- `armed`: the channel of the time-out alternative can become ready.  `time.NewTimer(d)` arms its channel for every `d`
+(a duration ≤ 0 fires at once), so for the code as it is `armed = true` whatever `WithBatchTimeout` was given; a nil
+channel (a "disabled" time-out) is `armed = false`. -/
+def selectAlt (s : St) (armed : Bool := true) : Comm × Nat → List (St × Nat)
   | (.recvQueue, t) =>
     match s.queue with
     | [] => []
     | o :: rest => [({ s with queue := rest, rcv := upd s.rcv o (s.rcv o + 1), wcur := o }, t)]
   | (.recvFlush, t) => if s.flushCh then [({ s with flushCh := false }, t)] else []
-  | (.recvTimer, t) => [(s, t)]              -- the timer may have fired at any moment
+  | (.recvTimer, t) => if armed then [(s, t)] else []   -- the timer may have fired at any moment
   | (.dflt, t) => if s.queue = [] then [(s, t)] else []   -- `default`: only when no other case is ready
   | (.unsupported _, _) => []
 
 /-- one resting instruction; successors are (state, instruction index, phase) -/
-def restStep (s : St) (pc : Nat) (ph : Phase) : WI → List (St × Nat × Phase)
+def restStep (s : St) (pc : Nat) (ph : Phase) (armed : Bool := true) : WI → List (St × Nat × Phase)
   | .brLoad .running yes no => [(s, if s.running then yes else no, .top)]
   | .brLoad .countNonZero yes no => [(s, if s.count ≠ 0 then yes else no, .top)]
   | .brLoad (.unsupported _) _ _ => []
-  | .select alts => (alts.flatMap (selectAlt s)).map (fun x => (x.1, x.2, .top))
+  | .select alts => (alts.flatMap (selectAlt s armed)).map (fun x => (x.1, x.2, .top))
   | .add full notFull =>
     match ph with
     | .top => [(emit (.reset s.wcur) { s with flag := upd s.flag s.wcur false, rst := upd s.rst s.wcur (s.rst s.wcur + 1) }, pc, .dec)]
@@ -191,11 +194,11 @@ def restStep (s : St) (pc : Nat) (ph : Phase) : WI → List (St × Nat × Phase)
   | _ => []
 
 /-- the derived writer: the resting instruction at `pc`, then the local instructions up to the next resting one -/
-def stepD (prog : List WI) (s : St) (pc : Nat) (ph : Phase) : List (St × Nat × Phase) :=
+def stepD (prog : List WI) (s : St) (pc : Nat) (ph : Phase) (armed : Bool := true) : List (St × Nat × Phase) :=
   match prog[pc]? with
   | none => []
   | some i =>
-    (restStep s pc ph i).map (fun x =>
+    (restStep s pc ph armed i).map (fun x =>
       if x.2.2 = .top then
         let y := runLocal prog 8 (x.1, x.2.1)
         (y.1, y.2, .top)
